@@ -197,6 +197,53 @@ def gen_cases(prop, u, seed, tier, probe=None):
                     for w in sorted(set([0, 1, 2, 3, nv - 1, nv, nv + 1, 255, 256, 2**32, 2**32 + 1, 2**63, 2**64 - 1])):
                         if w < nv: continue
                         case(i, 0, 'setw:%d:8:%d' % (r['offset'], w), v, 'tag-word', nv=nv, tag=w, off=r['offset'], last=(r['offset'] + 8 == len(ps[0]) // 2))
+    elif prop == 'C13':
+        for k_, t in enumerate(u.slice_elems):
+            cs.add('stype %d %s' % (k_, t.term()), kind='stype', ti=None)
+        plan = []
+        for i, t in enumerate(u.types):
+            for v in values_for(t, rng, 2 if quick else 5):
+                plan.append((i, v))
+        answers = probe(['schema %d %s' % (i, v) for i, v in plan])
+        for (i, v), a in zip(plan, answers):
+            ps = parse_schema(a)
+            if ps is None: continue
+            n = len(ps[0]) // 2
+            if n > (300 if quick else 5000): continue
+            ks = range(n + 2) if (not quick or i % 5 == 0) else sorted(set([0, 1, 7, 8, 28, 29, 36, 37, n - 9, n - 8, n - 1, n, n + 1] + rng.sample(range(n + 1), min(8, n + 1))))
+            for k in ks:
+                if k < 0: continue
+                case_spec = 'k=%d,m=%s,int=%s,ff=0' % (k, rng.choice(['-', '1', '3', '8']), rng.choice(['-', '2', '5']))
+                cs.add('wfail %d %s %s' % (i, case_spec, v), kind='wfail', ti=i, val=v, k=k, total=n, ff=False, family='fail-at-k')
+            cs.add('wfail %d k=-,m=1,int=2,ff=0 %s' % (i, v), kind='wfail', ti=i, val=v, k=None, total=n, ff=False, family='split-retry')
+            cs.add('wfail %d k=-,m=5,int=3,ff=0 %s' % (i, v), kind='wfail', ti=i, val=v, k=None, total=n, ff=False, family='split-retry')
+            cs.add('wfail %d k=-,ff=1 %s' % (i, v), kind='wfail', ti=i, val=v, k=None, total=n, ff=True, family='flush-fail')
+            cs.add('wfail %d devfull %s' % (i, v), kind='wfail', ti=i, val=v, k=0, total=n, ff=False, devfull=True, family='dev-full')
+        from universe import Seq
+        for k_, t in enumerate(u.slice_elems):
+            vt = Seq('vec', t)
+            for v in ['[]'] + values_for(vt, rng, 3 if quick else 8):
+                for k in [0, 5, 29, 40, 60, 70, 80, 90, 100, 120, 150, 200, 100000]:
+                    cs.add('wfails %d k=%d,m=%s %s' % (k_, k, rng.choice(['-', '2']), v), kind='wfails', sk=k_, val=v, k=k, family='slice-fail-at-k')
+                cs.add('wfails %d k=-,ff=1 %s' % (k_, v), kind='wfails', sk=k_, val=v, k=None, family='slice-flush-fail')
+    elif prop == 'C14':
+        plan = []
+        for i, t in enumerate(u.types):
+            for v in values_for(t, rng, 2 if quick else 6):
+                plan.append((i, v))
+        answers = probe(['schema %d %s' % (i, v) for i, v in plan])
+        for (i, v), a in zip(plan, answers):
+            ps = parse_schema(a)
+            if ps is None: continue
+            n = len(ps[0]) // 2
+            if n > (300 if quick else 5000): continue
+            for pat in ['one', 'onei', 'p3', 'p7i', 'mix', 'mixb', 'r%d' % rng.randrange(1000), 'r%di' % rng.randrange(1000), 'all', 'p3bi']:
+                cs.add('rchunk %d %s - %s' % (i, pat, v), kind='rchunk', ti=i, val=v, k=None, total=n, family='chunking')
+            ks = range(n) if (not quick or i % 5 == 0) else sorted(set([0, 1, 7, 8, 28, 29, 36, 37, max(n - 9, 0), max(n - 1, 0)] + rng.sample(range(n), min(6, n))))
+            for k in ks:
+                pat = rng.choice(['one', 'p3i', 'mix', 'r%d' % rng.randrange(100), 'p7b'])
+                kk = ('eof%d' % k) if rng.random() < 0.3 else str(k)
+                cs.add('rchunk %d %s %s %s' % (i, pat, kk, v), kind='rchunk', ti=i, val=v, k=k, total=n, family='fail-at-k')
     elif prop == 'C16':
         for k, t in enumerate(u.slice_elems):
             cs.add('stype %d %s' % (k, t.term()), kind='stype', ti=None)
